@@ -224,8 +224,9 @@ EofRestart ==
   ELSE UNCHANGED <<bol, eof, fresh, fid>>
 \* (through stdio the end-of-file indicator is sticky: an exhausted source need not be seen to be asked again)
 AtEnd == /\ cur # 0 /\ buf = <<>>
-         /\ \/ eof /\ (fid # 0 => files[fid] = <<>>)
-            \/ SilentEof
+         \* (a buffer that has seen the end of its source stays at its end, even if the source is opened again
+         \*  meanwhile: Reopen)
+         /\ (eof \/ SilentEof)
 
 \* ... or its end-of-input value, only when no input remains at all (with a
 \* user yywrap only after yywrap said so: WrapRet1 returns to the action)
